@@ -7,6 +7,7 @@ import PRV.Driver.C12
 import PRV.Driver.C17
 import PRV.Driver.C18
 import PRV.Driver.Sess
+import PRV.Driver.SessMon
 
 open PRV.Driver
 
@@ -24,4 +25,5 @@ def main (args : List String) : IO UInt32 := do
   | ["model", "c17"] => run C17.machine; return 0
   | ["model", "c18"] => run C18.machine; return 0
   | ["model", "sess"] => run Sess.machine; return 0
+  | ["monitor", "sess"] => runMonitor SessMon.monitor; return 0
   | _ => IO.eprintln "usage: prvdrv (model|spec) <property>"; return 2
